@@ -177,6 +177,9 @@ func (st *c18State) expectPanic(ctx string, wantPanic bool, f func()) (panicked 
 }
 
 func (st *c18State) scribble(b []byte) {
+	// the whole backing array the caller was handed, spare capacity included (a caller that
+	// appends to a returned slice writes there)
+	b = b[:cap(b)]
 	for i := range b {
 		b[i] += 0xA5 // (not XOR: two hand-outs that alias each other would cancel)
 	}
